@@ -57,6 +57,22 @@ pub fn div_ceil(lhs: i32, rhs: i32) -> (r: i32)
     ensures r as int == cdiv(lhs as int, rhs as int)
 { unimplemented!() }
 
+/// SymExpr::is_positive / SymExpr::range: not called by simplify_canonical today; declared so that
+/// a rewrite rule guarded by them stays decidable. Their contracts are discharged in unit
+/// U-symexpr (obligations SymExpr::is_positive.sound / SymExpr::range.sound, whose premise ev_ok
+/// is implied by okp) and assumed here.
+impl SymExpr {
+    #[verifier::external_body]
+    pub fn is_positive(&self) -> (r: bool)
+        ensures r ==> forall|env: Env| #[trigger] okp(*self, env) ==> ev(*self, env) >= 0
+    { unimplemented!() }
+
+    #[verifier::external_body]
+    pub fn range(&self) -> (r: (i32, i32))
+        ensures forall|env: Env| #[trigger] okp(*self, env) ==> r.0 <= ev(*self, env) <= r.1
+    { unimplemented!() }
+}
+
 /// remove_common_factors (Vec, iterator adapters, closures, let-chains: outside Verus' subset).
 /// Assumed: the quotient of the results equals the quotient of the arguments wherever the
 /// latter is defined, and the results are defined there.
@@ -118,7 +134,7 @@ impl SymExpr {
     //@| ensures r == SymExpr::DivCeil(Arc::new(*self), Arc::new(*other)),
 
     //@extract kind=fn file=rten-shape-inference/src/sym_expr.rs within="impl SymExpr" name=simplify_canonical vis=pub
-    //@| requires satisfiable(self),
+    //@| requires satisfiable(self), // @ob:premise.satisfiable
     //@| ensures preserves(self, r), // @ob:simplify_canonical.preserves_eval
     //@| decreases self
 }
